@@ -8,6 +8,7 @@ Layers (DESIGN.md §8 C19):
             is replayed by `Watch.wrun` (client x server acceptor)
   D:adjust  the REAL orchestration.adjust_tasks with dummy insights and stub watcher/peering coroutines: key sets,
             stops and starts after every insight change == Ensemble.adjust
+  D:lines   the REAL api.iter_jsonlines on randomly chunked byte streams == Watch.jsonlines
   D:nsrev   the REAL observation.revise_namespaces on namespace events == Ensemble.revise_namespaces
   monitors  the property text evaluated on the records with the harness's own arithmetic (c19 monitors below), and
             on whole kopf.operator() incarnations in kv.sim with namespaces appearing and disappearing: open watch
@@ -102,42 +103,30 @@ def brief(l: dict) -> list:
 # monitors: the property text read on the record (no model, no kopf logic)
 # ======================================================================================
 
-def is_retry(labels: list[dict], i: int, backoff: float, retries: int) -> bool:
-    """Is request label i a re-sent attempt of api.request (previous attempt of the same kind faulted with a retriable
-    error exactly one backoff earlier, with nothing but environment actions in between)?"""
-    me = labels[i]
+def _prev(labels: list[dict], i: int) -> int | None:
     j = i - 1
     while j >= 0 and labels[j]['l'] in ENV_LABELS:
         j -= 1
-    if j < 1 or labels[j]['l'] != 'Fault' or labels[j]['f'] not in drv.RETRIABLE:
-        return False
-    if abs((me['t'] - labels[j]['t']) - backoff) > 1e-9:
-        return False
-    # the failed attempt must be a request of the same kind
-    k = j - 1
-    while k >= 0 and labels[k]['l'] in ENV_LABELS:
-        k -= 1
-    if k < 0 or labels[k]['l'] != me['l']:
-        return False
-    # not more than `retries` re-sends in a row
+    return j if j >= 0 else None
+
+
+def is_retry(labels: list[dict], i: int, backoff: float, retries: int) -> bool:
+    """Is request label i a re-sent attempt of api.request?  It is when the previous attempt of the same kind ended with a
+    retriable fault exactly one backoff earlier, with nothing but environment actions in between; such links are followed
+    backwards and there must be between 1 and len(error_backoffs) of them."""
     n, cur = 0, i
     while True:
+        j = _prev(labels, cur)
+        if j is None or labels[j]['l'] != 'Fault' or labels[j]['f'] not in drv.RETRIABLE:
+            break
+        if abs((labels[cur]['t'] - labels[j]['t']) - backoff) > 1e-9:
+            break
+        k = _prev(labels, j)
+        if k is None or labels[k]['l'] != labels[i]['l']:
+            break
         n += 1
-        if n > retries:
-            return False
-        # walk to the attempt before
         cur = k
-        jj = cur - 1
-        while jj >= 0 and labels[jj]['l'] in ENV_LABELS:
-            jj -= 1
-        if jj < 1 or labels[jj]['l'] != 'Fault':
-            return True
-        kk = jj - 1
-        while kk >= 0 and labels[kk]['l'] in ENV_LABELS:
-            kk -= 1
-        if kk < 0 or labels[kk]['l'] != me['l']:
-            return True
-        k = kk
+    return 1 <= n <= retries
 
 
 def monitor(r: dict, cfg: dict) -> list[dict]:
@@ -447,6 +436,55 @@ def watch_layer(ctx: fw.Ctx, header: str = HEADER) -> None:
     ctx.differential('T_watch', header, cases, shard=120)
 
 
+# ======================================================================================
+# api.iter_jsonlines (D_lines)
+# ======================================================================================
+
+def lines_layer(ctx: fw.Ctx, header: str = HEADER) -> None:
+    import asyncio
+    from kopf._cogs.clients import api as kapi
+    if not hasattr(kapi, 'iter_jsonlines'):
+        raise RuntimeError('observation point missing: api.iter_jsonlines')
+    r = ctx.rng
+
+    class Content:
+        def __init__(self, chunks: list[bytes]) -> None:
+            self.chunks = chunks
+
+        def iter_chunked(self, n: int) -> Any:
+            async def gen() -> Any:
+                for c in self.chunks:
+                    yield c
+            return gen()
+
+    async def collect(chunks: list[bytes]) -> list[bytes]:
+        return [line async for line in kapi.iter_jsonlines(Content(chunks))]      # type: ignore[arg-type]
+
+    cases = []
+    loop = asyncio.new_event_loop()
+    try:
+        for _ in range(ctx.scale(300, 3000)):
+            pieces = []
+            for _ in range(r.randrange(0, 6)):
+                pieces.append(bytes(r.choice(b'{}":ab1') for _ in range(r.randrange(0, 7))))     # empty pieces = blank lines
+            data = b'\n'.join(pieces) + (b'\n' if r.random() < 0.7 else b'')
+            cuts = sorted(r.randrange(0, len(data) + 1) for _ in range(r.randrange(0, 5)))
+            chunks = [data[a:b] for a, b in zip([0] + cuts, cuts + [len(data)])]
+            got = loop.run_until_complete(collect(chunks))
+            want = [l for l in data.split(b'\n') if l]
+            case = {'layer': 'lines', 'chunks': [list(c) for c in chunks], 'got': [list(g) for g in got]}
+            if got != want:
+                ctx.fail('stream lines depend on the chunk boundaries (a line is lost, split or merged)', case,
+                         observed=[list(g) for g in got], expected=[list(w) for w in want], sig='lines-chunking')
+            ctx.count('lines', 'split-inside-a-line' if any(c and not c.endswith(b'\n') for c in chunks[:-1]) else 'aligned')
+            zl = lambda bs: cq.clist(cq.cZ(b) for b in bs)
+            cases.append(fw.Case(f'list_eqb (list_eqb Z.eqb) (jsonlines {cq.clist(zl(c) for c in chunks)}) {cq.clist(zl(g) for g in got)}', case,
+                                 diag=f'jsonlines {cq.clist(zl(c) for c in chunks)}'))
+    finally:
+        loop.close()
+    ctx.differential('D_lines', header, cases, shard=150)
+
+
 def run(ctx: fw.Ctx) -> int:
     ctx.matchers = {'F1901': match_f1901}
     ctx.proofs()
@@ -455,6 +493,7 @@ def run(ctx: fw.Ctx) -> int:
         ctx.correspondence_break('model build', logtxt[-1500:])
         return ctx.finish(RULE)
     watch_layer(ctx)
+    lines_layer(ctx)
     from kv.props import c19_ens
     c19_ens.ensemble_layer(ctx, HEADER)
     c19_ens.sim_layer(ctx)
